@@ -348,7 +348,7 @@ func runTx(c RecCase) *pbt.Result {
 				r.Fields.PutString(k, fmt.Sprintf("changed-%d-%d", i, c.Seed%1000))
 			}
 		}
-		if s2.Intn(3) == 0 {
+		if s2.Intn(3) == 0 && r.Fields.Size() < 255 { // the count travels in one byte
 			r.Fields.PutLong("added-later", int64(c.Seed%100000))
 		}
 		cls = append(cls, "fields-changed-in-place")
@@ -435,3 +435,67 @@ var specSvc = pbt.Register(pbt.Spec[SvcCase]{
 })
 
 func TestServiceRecord(t *testing.T) { specSvc.Check(t) }
+
+// ---- a profile pack object that receives a second profile ------------------------------------------------
+
+type RereadCase struct {
+	SeedA uint64 `json:"seed_a"`
+	SeedB uint64 `json:"seed_b"`
+	Len   int    `json:"len"`
+}
+
+func runReread(c RereadCase) *pbt.Result {
+	mk := func(seed uint64) (*pack.ProfilePack, []byte) {
+		p := pack.NewProfilePack()
+		p.Transaction = gpack.TxRecord(rfl.NewStream(nil, seed, c.Len))
+		p.Steps = []byte{}
+		p.Pcode, p.Oid, p.Time = int64(seed%1000)+1, int32(seed%77), int64(seed%100000)
+		return p, append([]byte(nil), pack.ToBytesPack(p)...)
+	}
+	pa, ba := mk(c.SeedA)
+	pb, bb := mk(c.SeedB)
+	gpack.NormalizeTxRecord(pa.Transaction)
+	gpack.NormalizeTxRecord(pb.Transaction)
+	wantA, wantB := rfl.Canon(pa.Transaction, gpack.Hook), rfl.Canon(pb.Transaction, gpack.Hook)
+	// one pack object, as a receiver that keeps its pack object would use it: first profile A, then profile B
+	q := pack.NewProfilePack()
+	q.Read(wio.NewDataInputX(ba[2:]))
+	first := q.Transaction
+	if d := rfl.Diff(wantA, rfl.Canon(first, gpack.Hook), nil); d != "" {
+		return pbt.Fail("first profile read into a fresh pack object differs from what was written: %s", d)
+	}
+	q.Read(wio.NewDataInputX(bb[2:]))
+	if d := rfl.Diff(wantB, rfl.Canon(q.Transaction, gpack.Hook), nil); d != "" {
+		return pbt.Fail("a pack object that had received one profile was used to read a second one: the second transaction record differs from what was written (optional sections that are absent must be absent): %s", d)
+	}
+	if d := rfl.Diff(wantA, rfl.Canon(first, gpack.Hook), nil); d != "" {
+		return pbt.Fail("the transaction record handed out by the first Read changed when the pack object read a second profile: %s", d)
+	}
+	groups := func(r *service.TxRecord) int {
+		n := 0
+		if r.Mtid != 0 {
+			n++
+		}
+		if r.McallerPcode != 0 {
+			n++
+		}
+		if r.Fields != nil && r.Fields.Size() > 0 {
+			n++
+		}
+		return n
+	}
+	ga, gb := groups(pa.Transaction), groups(pb.Transaction)
+	return &pbt.Result{NT: ga > gb, Classes: []string{fmt.Sprintf("optional-groups=%d-then-%d", ga, gb)}}
+}
+
+var specReread = pbt.Register(pbt.Spec[RereadCase]{
+	Prop: "C08", Name: "profile-pack-read-twice",
+	Rule:  "two generated transaction records A and B (every combination of the optional groups) travel in two profile packs; ONE profile pack object reads A and then B: the record it holds after the second read must be B exactly (groups absent in B are absent), and the record object handed out by the first read must still be A; non-trivial = A has more optional groups than B; distinct by case",
+	Quick: 2000, Thorough: 100000,
+	Draw: func(t *rapid.T) RereadCase {
+		return RereadCase{SeedA: rapid.Uint64().Draw(t, "a"), SeedB: rapid.Uint64().Draw(t, "b"), Len: rapid.SampledFrom([]int{10, 90, 300}).Draw(t, "len")}
+	},
+	Run: runReread,
+})
+
+func TestProfilePackReadTwice(t *testing.T) { specReread.Check(t) }
